@@ -938,6 +938,7 @@ func init() {
 
 	mc.Register(&mc.Property{
 		ID: "C14", Level: "model_checking",
+		Predicates: map[string]func(mc.Violation) bool{"count-differs-in-its-last-bits-only": countLastBitsOnly},
 		Rule:        "explicit-state BFS over histories that interleave mutations with read-only operations (rank / iteration / bin-stream reads, Encode, ToProto, EncodeProto, Copy, being the argument of MergeWith, DecodeAndMergeWith or ChangeMapping) on two-slot store worlds (all five store kinds) and sketch worlds (both variants); frame clause: across every transition the full observation of every slot the operation may not write is identical before and after (digest of the canonical observation stored with each state); copy clause: a fresh copy is observed identical to its original; independence follows from the frame clause applied to every later mutation of either side; plus every sequence of <= 3 (4) additions with NON-dyadic weights (running totals and compensated sums round) copied as a store of each kind and inside both sketch variants: the copy is observed identical to its original to the last bit and unchanged by a later addition to the original; distinct_nontrivial counts distinct contents",
 		Assumptions: []string{"observations are compared as canonical renderings of every public observer; the approximate sum of a plain sketch on a sparse store is left out because it depends on map iteration order"},
 		Shards: func(tier string) []mc.Shard {
@@ -970,6 +971,21 @@ func init() {
 							sp.Ops = append(sp.Ops, skChangeMap(1, 0, MapSpec{Kind: 'C', Alpha: 0.05}, 2), skChangeMap(1, 0, MapSpec{Kind: 'C', Alpha: 0.05}, 1), skChangeMap(0, 1, ms, 0.5))
 						}
 						specs = append(specs, sp)
+						if ki == 0 && !exact && ms.Kind == 'G' && ms.Alpha == 0.5 {
+							// bins of a paginated store whose weights have rounded (a conversion by 1/2
+							// merged back), one of them also held as a unit entry of the buffer: the
+							// state in which the known finding of this property shows (KNOWN_FINDINGS.txt);
+							// reached at depth 5 in the thorough tier, seeded here so that both tiers
+							// report it alike
+							rs := *sp
+							rs.Name = sp.Name + "/rounded-weights-and-a-buffered-unit"
+							rs.Depth = 1
+							if tier == "thorough" {
+								rs.Depth = 2
+							}
+							rs.Seeds = []mc.Seed[*SketchWorld]{skSeed("converted-by-half-and-merged-back", skAdd(0, 8.999999999999998), skCopy(1, 0), skChangeMap(0, 1, ms, 0.5), skMerge(1, 0))}
+							specs = append(specs, &rs)
+						}
 					}
 				}
 			}
